@@ -105,6 +105,19 @@ def save(e):
   return out
 
 
+def reopen_raw(e):
+  """Comparator used only to NAME the cause of a violation: the same load + Calculate, but from the
+  engine's own objects (fetch_table incl. formula values) without the encode / marshal / database /
+  decode steps.  If this engine equals the properly reopened one, the round trip is faithful and the
+  difference to the live engine comes from live formula values that were stale (C05)."""
+  f = _engine.Engine()
+  rest = f.load_meta_tables(e.fetch_table("_grist_Tables"), e.fetch_table("_grist_Tables_column"))
+  for t in rest:
+    f.load_table(e.fetch_table(t, formulas=True))
+  g = f.apply_user_actions([useractions.from_repr(["Calculate"])])
+  return f, g
+
+
 def reopen(saved):
   """Fresh real Engine loaded from the saved blobs; returns (engine, Calculate's action group)."""
   f = _engine.Engine()
@@ -174,15 +187,32 @@ class C07Monitor(explore.Monitor):
       m = describe_cell_diff(line)
       if m: types["%s.%s" % (m[0], m[1])] = _col_type(e.schema, m[0], m[1]) + (
           ":formula" if _is_formula(e, m[0], m[1]) else ":data")
-    if stored:
-      return [("C07.no_stored_actions", {"stored": stored[:6], "diff": d, "col_types": types})]
-    if d:
-      return [("C07.same_data", {"diff": d, "col_types": types})]
-    return []
+    if not stored and not d:
+      return []
+    explained = None
+    try:
+      r, gr = reopen_raw(e)
+      explained = (not eng.diff_snapshots(eng.snapshot(r), b)
+                   and _canon(eng.stored_reprs(gr)) == _canon(stored))
+      rdiff = eng.diff_snapshots(eng.snapshot(r), b, limit=12)
+    except Exception as ex:
+      rdiff = ["raw reopen failed: %r" % (ex,)]
+    detail = {"stored": stored[:6], "diff": d, "col_types": types,
+              "round_trip_faithful": bool(explained), "encoded_vs_raw_reopen": rdiff}
+    if not explained:
+      try:
+        detail["loaded_delta"] = loaded_delta(e, saved)
+      except Exception as ex:
+        detail["loaded_delta"] = ["not computed: %r" % (ex,)]
+    return [("C07.no_stored_actions" if stored else "C07.same_data", detail)]
 
   def classify(self, clause, detail, bundle, history):
     if clause == "C07.loads":
       return "loads|" + detail.get("error", "").split(":")[0]
+    if detail.get("round_trip_faithful"):
+      return "live-formula-values-were-stale(C05)"
+    if detail.get("loaded_delta"):
+      return "round-trip-changes|" + ";".join(detail["loaded_delta"][:4])
     kinds = set()
     for line in detail.get("diff", []):
       m = describe_cell_diff(line)
@@ -195,6 +225,55 @@ class C07Monitor(explore.Monitor):
       for a in detail["stored"]:
         kinds.add("stored %s %s" % (a[0], "meta" if str(a[1]).startswith("_grist_") else "user"))
     return "%s|%s" % (clause.split(".")[1], ";".join(sorted(kinds)[:4]))
+
+
+def _kind(v):
+  import objtypes
+  if isinstance(v, objtypes.RaisedException):
+    err = getattr(v, "error", None)
+    return "Error(%s%s)" % (type(err).__name__ if err is not None else "no error object",
+                            ",user_input" if v.has_user_input() else "")
+  return type(v).__name__
+
+
+def loaded_delta(e, saved, limit=8):
+  """Names what the save / decode round trip changed in the data the fresh engine STARTS from:
+  both engines are loaded (no Calculate), one from the decoded blobs, one from the live engine's
+  own objects, and their stored cells are compared by Python type and value.  Used only to name the
+  root cause of an established violation."""
+  def load(get):
+    f = _engine.Engine()
+    rest = f.load_meta_tables(get("_grist_Tables"), get("_grist_Tables_column"))
+    for t in rest: f.load_table(get(t))
+    return f
+  enc = load(lambda t: _main.table_data_from_db(t, saved.get(t)))
+  raw = load(lambda t: e.fetch_table(t, formulas=True))
+  out = set()
+  for t in sorted(raw.tables):
+    if t not in enc.tables: out.add("table missing"); continue
+    for cid, col in raw.tables[t].all_columns.items():
+      other = enc.tables[t].all_columns.get(cid)
+      if other is None or cid.startswith("#"): continue
+      for r in raw.tables[t].row_ids:
+        x, y = col.raw_get(r), other.raw_get(r)
+        same = type(x) is type(y) and (x == y or (x != x and y != y) or _kind(x).startswith("Error"))
+        if _kind(x) != _kind(y) or not same:
+          if _kind(x) == _kind(y) and _kind(x).startswith("Error"): continue
+          if _is_formula(e, t, cid): continue      # formula cells are recomputed by Calculate
+          ctype = _col_type(e.schema, t, cid)
+          kx, ky = _kind(x), _kind(y)
+          if kx.startswith("Error(") and ky.startswith("Error(no error object"):
+            what = "data-cell-error-object-lost"
+          else:
+            what = "%s:%s->%s" % (ctype, kx, ky)
+            if kx == ky: what += "(value)"
+          out.add(what)
+          if len(out) >= limit: return sorted(out)
+  return sorted(out)
+
+
+def _canon(action_reprs):
+  return sorted(json.dumps(a, sort_keys=True, default=repr) for a in action_reprs)
 
 
 def _is_formula(e, t, c):
